@@ -7,7 +7,7 @@ CHECKS = {
  "C02": dict(
    engine="seqx",
    technique="exhaustive history exploration (all event sequences to depth d + all <=k-deviation sequences to depth D) of the real connection accounting code against a per-link set model",
-   text="Every send/ACK/SRTLA-ACK/NAK/reset history over 1..4 links inside the stated depth and deviation bounds is executed on the real SrtlaConnection code through the real shell function process_connection_events, and after every event each link's packet log, in-flight count and score are compared with a BTreeSet reference model. Exhaustive within the bounds, so an accounting divergence that needs a specific multi-event history (e.g. a retransmission below the ACK high-water mark followed by a small-step ACK) cannot be missed inside them.",
+   text="Every send/ACK/SRTLA-ACK/NAK/reset history over 1..4 links inside the stated depth and deviation bounds is executed on the real SrtlaConnection code through the real shell function process_connection_events, and after every event each link's packet log, in-flight count and score are compared with a BTreeSet reference model. Exhaustive within the bounds, so an accounting divergence that needs a specific multi-event history (e.g. a retransmission below the ACK high-water mark followed by a small-step ACK) cannot be missed inside them. The quick tier includes a three-link exploration (an SRTLA ACK arriving on a link that does not hold the number while two others do).",
    note="Trusted: the harness's set model (a few lines per event), rustc; sequence numbers never wrap the 31-bit space (the property's own quantifier); bounded history length.",
    design="3/C02"),
 }
@@ -40,7 +40,7 @@ CHECKS.update({
  "C03": dict(
    engine="prodx",
    technique="exhaustive product enumeration of link-state combinations x configurations through the real select_connection_idx against an independent 'usable' predicate",
-   text="The full per-link product (8 lifecycle states x 4 receive ages x 8 loads x 3 windows x 6 stall histories x 3 quality gates x 3 CC targets x 3 NAK histories = 124416 states) for one link, sub-libraries of 576/288, 40 and 24 states per link for 2, 3 and 4 links, each under every combination of mode, quality scoring, guard, four threshold settings, three timeouts and every previous index, are pushed through the real selector; whenever the harness's own usable predicate (registered, connected, not timed out by its own rule) holds for some link the result must be Some. Blackouts need a specific combination of gates across links, which is exactly what a product enumeration covers and example tests do not.",
+   text="The full per-link product (8 lifecycle states x 4 receive ages x 8 loads x 3 windows x 6 stall histories x 3 quality gates x 3 CC targets x 3 NAK histories = 124416 states) for one link, sub-libraries of 576/288, 40 and 24 states per link for 2, 3 and 4 links, each under every combination of mode, quality scoring, guard, four threshold settings, three timeouts and every previous index, are pushed through the real selector; whenever the harness's own usable predicate (registered, connected, not timed out by its own rule) holds for some link the result must be Some. Blackouts need a specific combination of gates across links, which is exactly what a product enumeration covers and example tests do not. Stall histories are scripted on a two-link pool and keep a stale gated flag when the pool shrinks; every state is also evaluated right after a call under a different liveness timeout (stale per-link copy); the returned link must itself be eligible.",
    note="Trusted: the usable predicate and time-out rule in the harness; link states are built from the public constructor plus test-internals fields (selector inputs), stall-latch / silence-pull state by running the real selector over a scripted earlier timeline. Multi-link products use sub-libraries, not the full product.",
    design="3/C03"),
  "C11": dict(
@@ -52,7 +52,7 @@ CHECKS.update({
  "C12": dict(
    engine="seqx",
    technique="exhaustive history exploration of the real selector with a relational oracle (state before = state after; decision with history = decision of a never-selected twin)",
-   text="All histories up to depth 5-7 (and <=3-deviation histories to depth 12 for 4 links) of select / clock advance / load / earned proof / hearing / drain / NAK / disconnect / guard toggle / threshold change over 1..4 real links in both modes, from a fresh state and from scripted latched and silence-pulled states. On every select the full liveness/accounting projection of every link is compared before and after and against a twin that went through the same events but was never selected on; with the guard off all stall flags must be clear and the decision must equal the twin's.",
+   text="All histories up to depth 5-7 (and <=3-deviation histories to depth 12 for 4 links) of select / clock advance / load / earned proof / hearing / drain / NAK / disconnect / guard toggle / threshold change over 1..4 real links in both modes, from a fresh state and from scripted latched and silence-pulled states. On every select the full liveness/accounting projection of every link is compared before and after and against a twin that went through the same events but was never selected on; with the guard off all stall flags must be clear and the decision must equal the twin's. A fourth start state (latched with a NAK-lowered window) and a <=2/3-deviation exploration around the cycle 'proof, select, +1 s' carry a latched link through the whole rejoin dwell to its release (releases observed are counted; zero is a machinery error).",
    note="Trusted: the projection (Debug rendering of the public sub-structs plus the sorted packet log), the twin construction. Every state-changing event advances the clock by >= 50 ms so the quality cache cannot differ between link and twin.",
    design="3/C12"),
  "C13": dict(
@@ -64,13 +64,13 @@ CHECKS.update({
  "C01": dict(
    engine="seqx+world",
    technique="exhaustive event-sequence exploration of the mirrored event loop (real shell functions over loopback UDP, virtual clock) with a ledger / wire monitor",
-   text="All event sequences to depth 4-6 over client datagrams (data, R-flagged, control, 1-byte, MTU, bursts of 16/33), flush ticks on the 15 ms grid, housekeeping, SRT/SRTLA ACKs, keepalive echoes, duplicate REG3, receiver-socket close/open and clock jumps, from up to nine scripted real start states (live, streaming, link stall-latched and gated, every link latched, timed out, classic, low/high batch regime), plus <=1..2-deviation sequences of depth 36-240 around the pattern 7 x data + flush (crossing the 1-in-100 probe cadence and the batch thresholds). After every event the bytes read from each receiver-side socket must be, in order, exactly the next pending accepted datagrams of that link; queues must be empty after each flush tick unless the link was reset; nothing is dropped while a usable link exists; extra copies only on gated links within the cadence.",
+   text="All event sequences to depth 4-6 over client datagrams (data, R-flagged, control, 1-byte, MTU, bursts of 16/33), flush ticks on the 15 ms grid, housekeeping, SRT/SRTLA ACKs, keepalive echoes, duplicate REG3, receiver-socket close/open and clock jumps, from up to nine scripted real start states (live, streaming, link stall-latched and gated, every link latched, timed out, classic, low/high batch regime), plus <=1..2-deviation sequences of depth 36-240 around the pattern 7 x data + flush (crossing the 1-in-100 probe cadence and the batch thresholds). After every event the bytes read from each receiver-side socket must be, in order, exactly the next pending accepted datagrams of that link; queues must be empty after each flush tick unless the link was reset; nothing is dropped while a usable link exists; extra copies only on gated links within the cadence. In addition the real BatchUdpSocket and send_all_datagrams are driven over an AF_UNIX datagram socketpair with a minimal send buffer for every batch size x datagram length x reader drain pattern, so that the kernel accepts only part of a sendmmsg batch (short send); the wire must still see every datagram once, in order, byte-identical. The thorough tier also runs the real run_sender_with_config in real time against a loopback receiver and compares its time-insensitive observables with the mirrored world (a disagreement is a machinery error).",
    note="Trusted: the ~60-line mirror of the select! arms (bound to the source by a call-order and token-digest fingerprint; a change to that glue yields exit 2), the ledger/wire monitor, Linux loopback FIFO delivery (end-of-event sentinel per socket, worker threads pinned to one CPU), pending socket errors captured into the state. Short sendmmsg results are not exercised.",
    design="3/C01"),
  "C04": dict(
    engine="seqx+world",
    technique="exhaustive event-sequence exploration of the mirrored event loop with a per-routing-decision eligibility oracle",
-   text="All event sequences to depth 4-6 (and <=2-deviation sequences to depth 60) over data / R-flagged data / control datagrams, critical-window hints, NAKs, ACKs, keepalive echoes, REG_ERR, REG3, housekeeping, clock jumps and runtime toggles of mode / guard / quality, from ten scripted start states (live, streaming, link 0 or 1 stall-latched and gated, timed out and awaiting back-off, after REG_ERR; enhanced and classic; quality on/off), for 2 and 3 links. For every accepted datagram after establishment the link that received the unique copy must not be registering, timed out (own rule) or stall-gated at that instant. The override's choice depends on a cached quality value refreshed only for links the selector scores, i.e. on the past, which is why histories rather than states are enumerated.",
+   text="All event sequences to depth 4-6 (and <=2-deviation sequences to depth 60) over data / R-flagged data / control datagrams, critical-window hints, NAKs, ACKs, keepalive echoes, REG_ERR, REG3, housekeeping, clock jumps and runtime toggles of mode / guard / quality, from ten scripted start states (live, streaming, link 0 or 1 stall-latched and gated, timed out and awaiting back-off, after REG_ERR; enhanced and classic; quality on/off), for 2 and 3 links. For every accepted datagram after establishment the link that received the unique copy must not be registering, timed out (own rule) or stall-gated at that instant. The override's choice depends on a cached quality value refreshed only for links the selector scores, i.e. on the past, which is why histories rather than states are enumerated. The selector eligibility product of C03 is evaluated as well: over every link-state pair/triple x previous index x configuration the link returned by the real selector is never registering, timed out or stall-gated.",
    note="Trusted: the glue mirror + fingerprint, the eligibility oracle (own time-out rule; the gate flag as recomputed by the real selector in that call). Pre-establishment forwarding is outside the statement.",
    design="3/C04"),
  "C07": dict(
@@ -82,7 +82,7 @@ CHECKS.update({
  "C09": dict(
    engine="prodx+world",
    technique="exhaustive product enumeration of datagrams x link states through the real uplink arm, reading the simulated client socket back",
-   text="All 65536 type codes at the listed lengths and tails, all lengths 0..64 for 16 type codes x 4 tails, all tails over {00,7f,80,ff} up to 6 bytes, and crafted SRT ACK / NAK / SRTLA ACK / keepalive / handshake datagrams referring to the link state, injected on both links of up to nine scripted states (registering, warming, live idle, live with known numbers outstanding incl. a duplicate-probe number, awaiting a keepalive echo, stall-latched; client address known or not). Oracle from the statement: relay iff not SRTLA-internal, byte-identical, nothing without a client address, liveness stamp on every non-registration datagram, delivery-proof stamp iff earned SRTLA ACK or answered keepalive (all links compared). Runs in a child process with an address-space limit.",
+   text="All 65536 type codes at the listed lengths and tails, all lengths 0..64 for 16 type codes x 4 tails, all tails over {00,7f,80,ff} up to 6 bytes, and crafted SRT ACK / NAK / SRTLA ACK / keepalive / handshake datagrams referring to the link state, injected on both links of up to nine scripted states (registering, warming, live idle, live with known numbers outstanding incl. a duplicate-probe number, awaiting a keepalive echo, stall-latched; client address known or not). Oracle from the statement: relay iff not SRTLA-internal, byte-identical, nothing without a client address, liveness stamp on every non-registration datagram, delivery-proof stamp iff earned SRTLA ACK or answered keepalive (all links compared). Runs in a child process with an address-space limit. A backlog exploration queues 0..=200 (thorough 0..=600) tagged non-internal datagrams on the uplink channel and lets repeated arms of each kind work them off through the real drain_packet_queue: every one must reach the client byte-identical, nothing else may, per link in queue order.",
    note="Trusted: glue mirror + fingerprint, the oracle. Reader tasks / recvmmsg batching are bypassed (datagrams are injected as UplinkPacket).",
    design="3/C09"),
  "C10": dict(
@@ -100,19 +100,19 @@ CHECKS.update({
  "C14": dict(
    engine="seqx+world",
    technique="exhaustive event-sequence exploration of the housekeeping arm with a cadence / frame-content monitor on the wire, plus exhaustive histories of the real RTT sample filter and smoother",
-   text="(A) all sequences to depth 3-7 and <=1..2-deviation sequences to depth 12-90 (default: a pass every 1000 ms) over housekeeping passes at 990/1000/1010/2000 ms, keepalive echoes (timely, late > 10 s, future, zero timestamp, truncated), client bursts left queued, flush ticks, NAKs, duplicate REG3, receiver close and a 5 s clock jump, from established / live / timed-out start states for 2 and 4 links: never two consecutive passes without a keepalive on a connected, not-timed-out link; every keepalive frame is checked field by field against the link's pre-pass values. (B) all sequences to depth 6-8 over probe arming, echoes with ts in {now, now-1, now-20, now-10000, now-10001, now+5, 0}, truncated and over-long echoes, reset and a clock jump on the real tracker: a sample iff probe outstanding, >= 10 bytes, 0 < now-ts <= 10000; all sample sequences over {1,2,50,9999,10000}^<=8..10 through the real smoother stay finite and non-negative.",
+   text="(A) all sequences to depth 3-7 and <=1..2-deviation sequences to depth 12-90 (default: a pass every 1000 ms) over housekeeping passes at 990/1000/1010/2000 ms, keepalive echoes (timely, late > 10 s, future, zero timestamp, truncated), client bursts left queued, flush ticks, NAKs, duplicate REG3, receiver close and a 5 s clock jump, from established / live / timed-out start states for 2 and 4 links: never two consecutive passes without a keepalive on a connected, not-timed-out link; every keepalive frame is checked field by field against the link's pre-pass values. (B) all sequences to depth 6-8 over probe arming, echoes with ts in {now, now-1, now-20, now-10000, now-10001, now+5, 0}, truncated and over-long echoes, reset and a clock jump on the real tracker: a sample iff probe outstanding, >= 10 bytes, 0 < now-ts <= 10000; all sample sequences over {1,2,50,9999,10000}^<=8..10 through the real smoother stay finite and non-negative. The monitor keeps its own probe flag (a keepalive went out on the link since its last soft or full reset and since the last sample) and one start state is 'probe armed, then the link soft-reset by a failed threshold flush'.",
    note="Trusted: glue mirror + fingerprint; the monitors. 'Two housekeeping periods' is judged as 'two consecutive passes without a keepalive'.",
    design="3/C14"),
  "C08": dict(
    engine="seqx+world",
    technique="exhaustive fault-schedule exploration over virtual time in the mirrored event loop (all placements of <=k fault/repair events in a run of D one-second closed-loop steps) with a temporal monitor; full product of the pure back-off predicate",
-   text="Every placement of at most 1-3 fault / repair events (per link: black hole, lost handshake replies, REG_ERR answers, socket send errors via a closed receiver port, socket re-creation errors via the UplinkBinder seam; globally: the receiver forgetting the group) in runs of 14-140 one-second steps (housekeeping pass, a fake receiver answering exactly what it saw on non-faulted links, client traffic or an idle sender, ACKs), for 2-4 links, connection timeouts 1000/5000/15000/60000 ms and both modes. The monitor checks teardown-only-for-cause against the timeout configured in DynamicConfig, the minimum and maximum spacing of reconnect attempts, the 30 s rejoin bound with clean accounting at the connecting step, and that survivors keep carrying the stream. The back-off predicate is swept for every failure count incl. u32::MAX.",
+   text="Every placement of at most 1-3 fault / repair events (per link: black hole, lost handshake replies, REG_ERR answers, socket send errors via a closed receiver port, socket re-creation errors via the UplinkBinder seam; globally: the receiver forgetting the group) in runs of 14-140 one-second steps (housekeeping pass, a fake receiver answering exactly what it saw on non-faulted links, client traffic or an idle sender, ACKs), for 2-4 links, connection timeouts 1000/5000/15000/60000 ms and both modes. The monitor checks teardown-only-for-cause against the timeout configured in DynamicConfig, the minimum and maximum spacing of reconnect attempts, the 30 s rejoin bound with clean accounting at the connecting step, and that survivors keep carrying the stream. The back-off predicate is swept for every failure count incl. u32::MAX. Fault alphabet also contains a flap (the path delivers until REG3 and goes dark before any echo or ACK) and a reduced long-outage alphabet explored to 100-150 s. Detection is judged on the harness's own delivery clock: a connected link that was handed nothing for the configured timeout, with a retry allowed by its back-off predicate, must be torn down by that housekeeping pass.",
    note="Trusted: glue mirror + fingerprint, the fake receiver (about 60 lines), the temporal monitor. 'Retried forever' is decided up to the horizon plus the pure arithmetic; the 30 s bound assumes local socket re-creation succeeds.",
    design="3/C08"),
  "C18": dict(
    engine="prodx+schedx",
    technique="exhaustive product of a line grammar and all command sequences to a depth through the real dispatch / dispatch_async against a reference model; preemption-bounded exhaustive schedule exploration of real threads on the real DynamicConfig",
-   text="About 31000 lines (every string of length <= 2 over a 44-character JSON alphabet; the product jsonrpc x id x method x params x envelope incl. duplicate keys, array wrapping, trailing garbage, u64 extremes, unrepresentable numbers, deep nesting) from up to seven start configurations (incl. from_cli with out-of-range timeouts), each through the stdin entry point and the socket entry point without and with a subscription context, judged by a reference model that uses the generator's own shape tag; all sequences of depth 4-5 over 14 commands with the configuration compared with a six-field model after every line; and every schedule with at most 2-3 preemptions of 2 setter threads (direct setters and lines through the dispatcher) plus 1-2 snapshot readers, each atomic access of DynamicConfig being a switch point. The sweep runs in a child process.",
+   text="About 31000 lines (every string of length <= 2 over a 44-character JSON alphabet; the product jsonrpc x id x method x params x envelope incl. duplicate keys, array wrapping, trailing garbage, u64 extremes, unrepresentable numbers, deep nesting) from up to seven start configurations (incl. from_cli with out-of-range timeouts), each through the stdin entry point and the socket entry point without and with a subscription context, judged by a reference model that uses the generator's own shape tag; all sequences of depth 4-5 over 14 commands with the configuration compared with a six-field model after every line; and every schedule with at most 2-3 preemptions of 2 setter threads (direct setters and lines through the dispatcher) plus 1-2 snapshot readers, each atomic access of DynamicConfig being a switch point. The sweep runs in a child process. The grammar also contains every client-controlled string position (method, mode, id, version, parameter key, ill-typed value) x byte lengths 0..=160 x a 1/2/3/4-byte character at the end of the prefix.",
    note="Trusted: serde_json as JSON parser, the reference model (about 80 lines), the baton scheduler. Sequentially consistent schedules only; non-UTF-8 input never reaches dispatch(&str); the entry-point read loops are not explored.",
    design="3/C18"),
  "C19": dict(
@@ -124,7 +124,7 @@ CHECKS.update({
  "C20": dict(
    engine="schedx",
    technique="preemption-bounded exhaustive schedule exploration of real async tasks on the real SubscriptionHub under a hand-rolled single-threaded executor",
-   text="Seven harnesses (subscribe / receive / unsubscribe / close / publish by 2-4 tasks, two topics, subscribers that never read or never run again) x channel capacities 1 and 2, every schedule with at most 2 (quick) / 3 (thorough) preemptions, iterated 0..bound, every execution run to completion. Switch points: every genuine Pending of tokio's Mutex / mpsc plus cfg-guarded yield points before and right after every lock acquisition, after the id counter, between entries of the publish loop while the lock is held, and after the loop. Judged on the recorded invoke/return/receive history: no deadlock even with frozen subscribers, topic / id / order / at-most-once / nothing-after-unsubscribe / pruning. A harness with a single observable outcome is rejected as vacuous.",
+   text="Seven harnesses (subscribe / receive / unsubscribe / close / publish by 2-4 tasks, two topics, subscribers that never read or never run again) x channel capacities 1 and 2, every schedule with at most 2 (quick) / 3 (thorough) preemptions, iterated 0..bound, every execution run to completion. Switch points: every genuine Pending of tokio's Mutex / mpsc plus cfg-guarded yield points before and right after every lock acquisition, after the id counter, between entries of the publish loop while the lock is held, and after the loop. Judged on the recorded invoke/return/receive history: no deadlock even with frozen subscribers, topic / id / order / at-most-once / nothing-after-unsubscribe / pruning. A harness with a single observable outcome is rejected as vacuous. Harness H8 has two reading subscribers and two single-shot publishers (agreement on order); a subscriber that empties its channel right after unsubscribe returned must find it empty at the end of the execution.",
    note="Trusted: the executor and decision engine (about 150 lines), the history oracle. One executor thread with explicit yield points stands in for the multi-threaded runtime (sequentially consistent interleavings of the marked accesses); tokio's internals are trusted.",
    design="3/C20"),
 })
